@@ -401,6 +401,64 @@ func extractC15() *lean {
 			}
 		}
 	}
+	// the two cooperating payload-presence guards: handleTransactionList (public tx needs a non-EMPTY payload) and state.Add
+	// (a non-nil payload is hash-checked and stored)
+	_, tlhF := parseFile("network/transport/v2/transactionlist_handler.go")
+	listGuard := "MISSING"
+	if fd := funcDecl(tlhF, "handleTransactionList"); fd != nil {
+		ast.Inspect(fd, func(n ast.Node) bool {
+			if is, ok := n.(*ast.IfStmt); ok && listGuard == "MISSING" {
+				if len(is.Body.List) == 1 {
+					if r, ok := is.Body.List[0].(*ast.ReturnStmt); ok && len(r.Results) == 1 && strings.Contains(c15Src(r.Results[0]), "did not provide payload") {
+						listGuard = c15Src(is.Cond)
+					}
+				}
+			}
+			return true
+		})
+	}
+	// grpc/tls_offloading.go authenticate: header multiplicity check, certificate count check, which value is used
+	_, offF := parseFile("network/transport/grpc/tls_offloading.go")
+	hdrCheck, certCheck := "MISSING", "MISSING"
+	var valIdx []string
+	for _, d := range offF.Decls {
+		fd, ok := d.(*ast.FuncDecl)
+		if !ok || fd.Name.Name != "authenticate" {
+			continue
+		}
+		ast.Inspect(fd, func(n ast.Node) bool {
+			switch x := n.(type) {
+			case *ast.IfStmt:
+				c := c15Src(x.Cond)
+				if strings.Contains(c, "len(values)") && hdrCheck == "MISSING" {
+					hdrCheck = c
+				}
+				if strings.Contains(c, "len(certificates)") && certCheck == "MISSING" {
+					certCheck = c
+				}
+			case *ast.IndexExpr:
+				if exprString(x.X) == "values" {
+					valIdx = append(valIdx, c15Src(x.Index))
+				}
+			}
+			return true
+		})
+	}
+	l.def("offloadHeaderCountCheck", "String", fmt.Sprintf("%q", hdrCheck), hdrCheck)
+	l.def("offloadCertificateCountCheck", "String", fmt.Sprintf("%q", certCheck), certCheck)
+	l.def("offloadValueIndex", "List String", leanStrList(valIdx), valIdx)
+	l.def("listPayloadGuard", "String", fmt.Sprintf("%q", listGuard), listGuard)
+	_, stF := parseFile("network/dag/state.go")
+	addGuard := "MISSING"
+	if fd := funcDecl(stF, "Add"); fd != nil {
+		ast.Inspect(fd, func(n ast.Node) bool {
+			if is, ok := n.(*ast.IfStmt); ok && addGuard == "MISSING" && len(c15Calls(is.Body, "s.payloadStore.writePayload")) > 0 {
+				addGuard = c15Src(is.Cond)
+			}
+			return true
+		})
+	}
+	l.def("stateAddPayloadGuard", "String", fmt.Sprintf("%q", addGuard), addGuard)
 	l.def("tlsAuthenticatorFields", "List String", leanStrList(authFields), authFields)
 	l.def("authenticateReceiver", "String", fmt.Sprintf("%q", recv), recv)
 	l.def("authenticatorPackageVars", "List String", leanStrList(pkgVars), pkgVars)
